@@ -147,6 +147,18 @@ func c05Positive(k *fw.K, i int) {
 	if pw == nil {
 		return
 	}
+	if (i/27)%4 == 3 {
+		// the same Password object served another document before: its exported fields are
+		// overwritten with this document's values (a corrected OCR read), after Key() was used
+		_, fo := mrzref.Generate(r, c05Layouts[(i+1)%3], 9)
+		if po, err := password.NewPasswordMrzi(fo.DocumentNumber, fo.DateOfBirth, fo.DateOfExpiry); err == nil {
+			_, _ = po.Key()
+			po.PasswordType, po.Password = pw.PasswordType, pw.Password
+			pw = po
+			routeName += "+reused-object"
+			k.Count("positive_reused_password_object")
+		}
+	}
 	mode := (i / 9) % 5
 	// scripted extremes
 	w.card.BAC.NextRndIC = c05Extreme(r, mode, 8)
